@@ -12,6 +12,7 @@ from ._exceptions import (
     WebSocketException,
     WebSocketPayloadException,
     WebSocketProtocolException,
+    WebSocketTimeoutException,
 )
 from ._handshake import SUPPORTED_REDIRECT_STATUSES, handshake
 from ._http import connect, proxy_info
@@ -580,23 +581,36 @@ class WebSocket:
             sock_timeout = self.sock.gettimeout()
             self.sock.settimeout(timeout)
             start_time = time.time()
-            while timeout is None or time.time() - start_time < timeout:
-                try:
-                    if timeout is not None:
-                        # wait for what is left of the timeout, not for a full one per frame
-                        self.sock.settimeout(timeout - (time.time() - start_time))
-                    frame = self.recv_frame()
-                    if frame.opcode != ABNF.OPCODE_CLOSE:
-                        continue
-                    if isEnabledForError():
-                        recv_status = struct.unpack("!H", frame.data[0:2])[0]
-                        if recv_status >= 3000 and recv_status <= 4999:
-                            debug(f"close status: {repr(recv_status)}")
-                        elif recv_status != STATUS_NORMAL:
-                            error(f"close status: {repr(recv_status)}")
-                    break
-                except:
-                    break
+
+            def recv_in_time(bufsize):
+                # every transport read of the wait gets what is left of the timeout,
+                # not a full one per frame or per piece of a frame
+                if timeout is not None:
+                    left = timeout - (time.time() - start_time)
+                    if left <= 0:
+                        raise WebSocketTimeoutException("close timed out")
+                    self.sock.settimeout(left)
+                return self._recv(bufsize)
+
+            frame_recv = self.frame_buffer.recv
+            self.frame_buffer.recv = recv_in_time
+            try:
+                while timeout is None or time.time() - start_time < timeout:
+                    try:
+                        frame = self.recv_frame()
+                        if frame.opcode != ABNF.OPCODE_CLOSE:
+                            continue
+                        if isEnabledForError():
+                            recv_status = struct.unpack("!H", frame.data[0:2])[0]
+                            if recv_status >= 3000 and recv_status <= 4999:
+                                debug(f"close status: {repr(recv_status)}")
+                            elif recv_status != STATUS_NORMAL:
+                                error(f"close status: {repr(recv_status)}")
+                        break
+                    except:
+                        break
+            finally:
+                self.frame_buffer.recv = frame_recv
             self.sock.settimeout(sock_timeout)
             self.sock.shutdown(socket.SHUT_RDWR)
         except:
